@@ -175,7 +175,7 @@ type sconn struct {
 }
 
 func newWorld(events []ev) *world {
-	w := &world{events: events, cur: -1, notify: make(chan struct{}, 1), timeout: 3 * time.Second}
+	w := &world{events: events, cur: -1, notify: make(chan struct{}, 1), timeout: 30 * time.Second}
 	w.cond = sync.NewCond(&w.mu)
 	return w
 }
